@@ -95,6 +95,20 @@ func init() {
 			e.runOthers()
 			return nil
 		},
+		"vsymGoroutineBase": func(e *Exec, c *frame, fn *ssa.Function, a []Value) Value { return nil },
+		"vsymLiveGoroutines": func(e *Exec, c *frame, fn *ssa.Function, a []Value) Value {
+			if e.cur != nil {
+				e.unsupported("vsymLiveGoroutines called from a child goroutine")
+			}
+			e.runOthers()
+			n := 0
+			for _, g := range e.gors {
+				if !g.done {
+					n++
+				}
+			}
+			return mkInt(int64(n))
+		},
 		"vsymCut": func(e *Exec, c *frame, fn *ssa.Function, a []Value) Value {
 			e.cut("harness:" + e.vsymName(a[0]))
 			return nil
